@@ -522,15 +522,39 @@ func (ri RouterInfoV) Encode() []byte {
 func genRouterInfo(r *Rng) RouterInfoV {
 	ri := RouterInfoV{Ident: genRouterIdent(r), Published: r.U64() >> uint(r.Intn(30))}
 	n := genCount(r, 4)
+	if r.Intn(25) == 0 {
+		n = []int{15, 16, 17, 254, 255}[r.Intn(5)] // many addresses: the count is one byte
+	}
 	for i := 0; i < n; i++ {
 		ri.Addrs = append(ri.Addrs, genRouterAddr(r))
 	}
 	if r.Intn(6) == 0 {
 		ri.PeerSize = r.Intn(256)
 	}
-	switch r.Intn(3) {
+	switch r.Intn(4) {
 	case 0:
 		ri.Opts = genSmallKVs(r)
+	case 1:
+		// the well-known router options with unusual values (empty, malformed versions, every
+		// capability letter), any subset, canonical or arbitrary wire order
+		pools := map[string][]string{
+			"caps":           {"", "f", "fR", "XfR", "KU", "LRD", "PE", "NOG", "HR", "zzzz", "f f"},
+			"router.version": {"0.9.67", "", "0.9", "0.9.9999", "1.0.0", "0.9.67-rc", "a.b.c", "0..9", "0.9.67.1", "00.09.067"},
+			"netId":          {"2", "", "255", "-1", "x"},
+			"coreVersion":    {"0.9.67", ""},
+		}
+		for _, k := range []string{"caps", "coreVersion", "netId", "router.version"} {
+			if r.Intn(4) != 0 {
+				vs := pools[k]
+				ri.Opts = append(ri.Opts, KV{[]byte(k), []byte(vs[r.Intn(len(vs))])})
+			}
+		}
+		if r.Intn(3) == 0 {
+			for j := len(ri.Opts) - 1; j > 0; j-- {
+				k := r.Intn(j + 1)
+				ri.Opts[j], ri.Opts[k] = ri.Opts[k], ri.Opts[j]
+			}
+		}
 	default:
 		ri.Opts = sortKVs([]KV{{[]byte("caps"), []byte("fR")}, {[]byte("router.version"), []byte("0.9.67")}, {[]byte("netId"), []byte("2")}})
 	}
